@@ -21,6 +21,15 @@
     run; `wrapBuilds`: every wrapper accepts the next one as its only child).  Each yields a schema-valid document (C01)
     that keeps the text and leaf nodes.  Helpers: Proofs/Level.lean, LevelReplace.lean, ContentBetween.lean,
     SplitSuccess.lean, JoinSuccess.lean, LiftSuccess.lean, LiftSplit.lean, WrapSuccess.lean.
+  * **an approved insertion succeeds** (`insert_point`, `drop_point`, `join_point`; section INSERT below):
+    `insertPoint_insert_applies` (`insertGuard`: the answer is a child boundary and its parent allows the node's marks;
+    `TextStable`): `tr.insert(p, n)` plans `ReplaceStep(p, p, Slice([n], 0, 0))` (`fits_trivially`), the step applies, the
+    result is valid; `dropPoint_drop_applies_closed` (closed slice answered by the first pass, `dropGuard`, `TextStable`):
+    the same for `tr.replace(p, p, slice)`; `dropPoint_drop_applies_partial` (open slices / second pass: through the Fitter,
+    only validity of an applied step); `joinPoint_canJoin` (a join point is a position `can_join` approves, `dir ≠ 0`) and
+    `joinPoint_join_applies`.  Counterexamples `insertPoint_needs_guard_marks/_text`, `dropPoint_needs_guard`,
+    `joinPoint_needs_guard`.  Helpers: Proofs/InsertSuccess.lean, ResolveBoundary.lean, JoinPointSuccess.lean;
+    guards in PM/InsertGuard.lean; tie: Driver/ExtIns.lean.
   Helpers: Proofs/Respects.lean, Proofs/StructEdit.lean, Proofs/Structure2.lean.
 -/
 import PM.Monitor
@@ -36,6 +45,7 @@ import Proofs.WrapSuccess
 import Proofs.LiftSuccess
 import Proofs.LiftSplit
 import Proofs.InsertSuccess
+import Proofs.JoinPointSuccess
 namespace PM.C12
 open PM
 
@@ -1392,6 +1402,52 @@ theorem dropPoint_drop_applies_partial (S : Schema) (doc doc' : Node) (pos : Nat
     (_hfit : replaceStep S doc p p sl = .ok (some st)) (hpay : C01.PayloadValid S doc st)
     (hap : S.apply st doc = .ok doc') : C01.Valid S doc' :=
   C01.apply_valid S st doc doc' hv hpay hap
+
+/-! ### a join point is joinable: `join_point`
+
+    `join_point(doc, pos, dir)` runs, at `pos` and then at the boundary before (`dir < 0`) / after (`dir > 0`) each
+    ancestor of `pos`, the test of `can_join` plus "the node before is not a textblock".  So its answer is a position
+    `can_join` approves, and `canJoin_join_applies` takes over (same guards: `joinGuard`, `TextStable`).
+    `dir ≠ 0`: with `dir = 0` the code looks at the boundary *before* the ancestor and answers the position *after* it. -/
+
+/-- **`join_point` answers `p` ⇒ `can_join(doc, p)` is `True`** -/
+theorem joinPoint_canJoin (S : Schema) (doc : Node) (pos : Nat) (dir : Int) (p : Nat) (hdoc : C01.IsElem doc)
+    (hn : fnorm doc.kids = true) (hdir : dir ≠ 0)
+    (hc : joinPoint S doc pos dir = some (some p)) : canJoin S doc p = some (some true) := by
+  unfold joinPoint at hc
+  cases hr : doc.resolve pos with
+  | none => simp [hr] at hc
+  | some r =>
+    simp only [hr] at hc
+    cases doc with
+    | text s m => simp [C01.IsElem, Node.isLeaf] at hdoc
+    | leaf t a m => simp [C01.IsElem, Node.isLeaf] at hdoc
+    | elem ty0 a0 m0 K =>
+      exact joinPointLoop_canJoin S hr (by simpa [Node.kids] using hn) dir hdir r.depth pos p (Nat.le_refl _)
+        (fun _ => rfl) (fun h => absurd h (Nat.lt_irrefl _)) hc
+
+/-- **`join_point` answers `p` ∧ `joinGuard` at `p` ∧ `TextStable` ⇒ `join(p)` succeeds** with a schema-valid document
+    that keeps the text and leaf nodes -/
+theorem joinPoint_join_applies (S : Schema) (hts : C01.TextStable S) (doc : Node) (pos : Nat) (dir : Int) (p : Nat)
+    (st : Step) (hdoc : C01.IsElem doc) (hv : C01.Valid S doc) (hn : fnorm doc.kids = true) (hdir : dir ≠ 0)
+    (hg : joinGuard S doc p = true)
+    (hc : joinPoint S doc pos dir = some (some p)) (hb : joinStep p 1 = .ok st) :
+    ∃ doc', S.apply st doc = .ok doc' ∧ C01.Valid S doc' ∧
+      (ftoks doc'.kids).filter Tok.isContent = (ftoks doc.kids).filter Tok.isContent :=
+  canJoin_join_applies S hts doc p st hv hn hg (joinPoint_canJoin S doc pos dir p hdoc hn hdir hc) hb
+
+/-- a non-trivial instance: from inside the second blockquote of `exDoc2` the join point to the left is 5 -/
+example : ∃ doc', exSchema.apply (.replace 4 6 Slice.empty true) exDoc2 = .ok doc' ∧ C01.Valid exSchema doc' ∧
+    (ftoks doc'.kids).filter Tok.isContent = (ftoks exDoc2.kids).filter Tok.isContent :=
+  joinPoint_join_applies exSchema ex_stable exDoc2 7 (-1) 5 _ rfl rfl rfl (by decide) rfl rfl rfl
+/-- the guard is needed: in `cexSchema` (above) `join_point` answers 3, `joinGuard` fails and `join(3)` is refused
+    ("Cannot join B onto A") -/
+theorem joinPoint_needs_guard : joinPoint cexSchema cexDoc 3 (-1) = some (some 3) ∧ joinGuard cexSchema cexDoc 3 = false ∧
+    cexSchema.compatibleContent 2 1 = false := ⟨rfl, rfl, rfl⟩
+/-- `dir ≠ 0` is needed: with `dir = 0` the code tests the boundary *before* each ancestor and answers the position
+    *after* it; from inside the second blockquote of `exDoc2` it answers 10 (the end of the document), where `can_join`
+    says `None` -/
+example : joinPoint exSchema exDoc2 7 0 = some (some 10) ∧ canJoin exSchema exDoc2 10 = some none := ⟨rfl, rfl⟩
 
 /-! ### INSERT-END -/
 
